@@ -17,6 +17,7 @@ import Paroxy.Proofs.FlatNeg
 import Paroxy.Proofs.FlatEscape
 import Paroxy.Proofs.FlatCtx
 import Paroxy.Proofs.FlatFuse
+import Paroxy.Proofs.FlatInjective
 namespace Paroxy.Props.C15
 open Paroxy.Flat
 
@@ -107,9 +108,8 @@ context-free dump as hash source (`reprsAreDumps`: `Type(field=value, …)` with
 optional fields that are `None` — checked by the driver on every real expression), two expression nodes
 that are **the same expression up to load/store context** (`sameUpToCtx`: same types, field names and
 terminal values once the `ctx` fields are removed) get the same `_hash`.
-The converse — different expressions get different hashes — needs the injectivity of Python's
-`repr`-based dump text and stays exercised (`c15.spec` numbers the hashes after a length-prefixed
-canonical form and compares). -/
+The converse — different expressions get different hashes — is `C15_hash_iff` below (it needs the injectivity
+of Python's `repr`-based dump text: `C15_dump_injective`, under `wfDump`). -/
 theorem C15_hash_structural (t : Val) (hd : reprsAreDumps t = true) (p1 p2 : List Nat)
     {ty1 ty2 r1 r2 : Str} {ln1 ln2 : Option Nat} {fs1 fs2 : List (Str × Val)}
     (h1 : t.at? p1 = some (.node ty1 true r1 ln1 fs1)) (h2 : t.at? p2 = some (.node ty2 true r2 ln2 fs2))
@@ -131,6 +131,164 @@ example :
        (cs!"ctx", .node c false [] none [])]
     sameUpToCtx (sub cs!"Store") (sub cs!"Load") = true ∧
       dumpNoCtx (sub cs!"Store") = cs!"Subscript(value=Name(id='a'), slice=Name(id='i'))" := by decide
+
+/-! ### The converse: the dump text is injective, so different expressions get different hashes
+
+`wfDump` (Spec/FlatDump.lean) is what makes the text of `ast.dump` unambiguous: type and field names without
+any of the characters of the syntax (`( ) [ ] , =`, space, quotes — identifiers), terminal reprs that are either
+a Python string / bytes literal (same quote at both ends, every inner quote of that kind or backslash escaped)
+or a non-empty delimiter-free token (`12`, `-1`, `1e+22`, `inf`, `1j`, `None`, `True`, `Ellipsis`). The driver
+evaluates it on every real tree (`c15.wf_dump`). `eraseCtx` removes from a tree exactly what `dumpNoCtx`
+(= `remove_context("", ast.dump(node))`) does not print — the `ctx` fields and the optional fields that are
+`None` — and `sameExpr a b = sameShape (eraseCtx a) (eraseCtx b)`: same types, field names and terminal values
+on what remains. -/
+
+/-- **C15 (the dump text is injective).** Two well-formed trees with the same context-free dump text are the same
+tree once the unprinted fields are erased: same types, same field names, same terminal reprs, same list lengths
+(`sameShape` ignores only what the text never shows: positions, stored hash sources, flags). Direct structural
+induction on the two trees with a continuation (prefix-freeness: `Paroxy.Flat.dump_inj`). -/
+theorem C15_dump_injective (t1 t2 : Val) (w1 : wfDump t1 = true) (w2 : wfDump t2 = true)
+    (h : dumpNoCtx t1 = dumpNoCtx t2) : sameShape (eraseCtx t1) (eraseCtx t2) = true :=
+  dumpNoCtx_injective w1 w2 h
+
+/-- … and conversely, for all trees: the dump text is a function of the erased tree. -/
+theorem C15_dump_iff (t1 t2 : Val) (w1 : wfDump t1 = true) (w2 : wfDump t2 = true) :
+    dumpNoCtx t1 = dumpNoCtx t2 ↔ sameExpr t1 t2 = true :=
+  dumpNoCtx_eq_iff w1 w2
+
+/-- **C15 (hash, both directions).** Within one flattening (hash function of the tree from the reset), in a
+well-formed tree (`wfDump`) whose expression nodes carry their own context-free dump as hash source
+(`reprsAreDumps`), two expression nodes get the same `_hash` **iff** they are the same expression up to
+load/store context (`sameExpr`). -/
+theorem C15_hash_iff (t : Val) (hw : wfDump t = true) (hd : reprsAreDumps t = true) (p1 p2 : List Nat)
+    {ty1 ty2 r1 r2 : Str} {ln1 ln2 : Option Nat} {fs1 fs2 : List (Str × Val)}
+    (h1 : t.at? p1 = some (.node ty1 true r1 ln1 fs1)) (h2 : t.at? p2 = some (.node ty2 true r2 ln2 fs2)) :
+    hashFn t r1 = hashFn t r2 ↔ sameExpr (.node ty1 true r1 ln1 fs1) (.node ty2 true r2 ln2 fs2) = true := by
+  obtain ⟨ns1, hn1⟩ := at_exists h1
+  obtain ⟨ns2, hn2⟩ := at_exists h2
+  have e1 := reprsAreDumps_of_at hn1 hd
+  have e2 := reprsAreDumps_of_at hn2 hd
+  simp only [reprsAreDumps, Bool.not_true, Bool.false_or, Bool.and_eq_true, beq_iff_eq] at e1 e2
+  rw [C15_hash t p1 p2 h1 h2, ← dumpNoCtx_eq_iff (wfDump_of_at hn1 hw) (wfDump_of_at hn2 hw)]
+  constructor
+  · intro h; rw [← e1.1, ← e2.1]; exact h
+  · intro h; rw [e1.1, e2.1]; exact h
+
+/-- **C15 (hash, converse in the vocabulary of `C15_hash_structural`).** Two expression nodes with the same
+`_hash` are the same expression up to context; and `sameUpToCtx` (which compares *all* the non-`ctx` fields,
+absent optional ones included) implies `sameExpr`, so that with `C15_hash_structural`:
+`sameUpToCtx a b → same hash → sameExpr a b`. The two relations coincide on trees in which nodes of one type
+have the same field names (every real tree: the harness compares them on every pair of expressions of every
+exported tree, `c15.wf_dump`); on arbitrary `Val` trees `sameExpr` is the coarser one, and it is the exact one
+(`C15_sameUpToCtx_too_fine`). -/
+theorem C15_hash_converse (t : Val) (hw : wfDump t = true) (hd : reprsAreDumps t = true) (p1 p2 : List Nat)
+    {ty1 ty2 r1 r2 : Str} {ln1 ln2 : Option Nat} {fs1 fs2 : List (Str × Val)}
+    (h1 : t.at? p1 = some (.node ty1 true r1 ln1 fs1)) (h2 : t.at? p2 = some (.node ty2 true r2 ln2 fs2))
+    (hne : sameExpr (.node ty1 true r1 ln1 fs1) (.node ty2 true r2 ln2 fs2) = false) :
+    hashFn t r1 ≠ hashFn t r2 := by
+  intro h
+  rw [(C15_hash_iff t hw hd p1 p2 h1 h2).mp h] at hne
+  cases hne
+
+/-- `sameUpToCtx` (the relation of `C15_hash_structural`) is included in `sameExpr` on well-formed trees. -/
+theorem C15_sameExpr_of_sameUpToCtx (a b : Val) (wa : wfDump a = true) (wb : wfDump b = true)
+    (h : sameUpToCtx a b = true) : sameExpr a b = true :=
+  dumpNoCtx_injective wa wb (dumpNoCtx_of_sameUpToCtx h)
+
+/-- On arbitrary `Val` trees `sameUpToCtx` is strictly finer than "same hashed text": a node with an optional
+field that is `None` and the same node without that field print the same text (`Foo(b=1)`), hence get the same
+hash, and are not `sameUpToCtx`. (No real tree contains such a pair: a class has one list of fields.) This is why
+`C15_hash_iff` is stated with `sameExpr`. -/
+theorem C15_sameUpToCtx_too_fine :
+    ∃ a b : Val, wfDump a = true ∧ wfDump b = true ∧ dumpNoCtx a = dumpNoCtx b ∧ sameExpr a b = true ∧
+      sameUpToCtx a b = false :=
+  ⟨.node cs!"Foo" true [] none [(cs!"a", .scalar cs!"None" .nameConst), (cs!"b", .scalar cs!"1" .num)],
+   .node cs!"Foo" true [] none [(cs!"b", .scalar cs!"1" .num)], by decide⟩
+
+/-- **C15 (hash ⇔ same expression up to load/store context, in the vocabulary of the property).** If moreover the
+tree has one list of field names per node type (`conforms sch`, for some schema `sch` — every real tree has: an `ast`
+class has one `_fields` tuple; the driver evaluates it with the schema read off the tree itself), then the relation
+is `sameUpToCtx`, the one of `C15_hash_structural`: within one flattening two expression nodes get the same `_hash`
+**iff** they have the same types, field names and terminal values once the `ctx` fields are removed. -/
+theorem C15_hash_iff_sameUpToCtx (t : Val) (sch : List (Str × List Str)) (hw : wfDump t = true)
+    (hd : reprsAreDumps t = true) (hs : conforms sch t = true) (p1 p2 : List Nat)
+    {ty1 ty2 r1 r2 : Str} {ln1 ln2 : Option Nat} {fs1 fs2 : List (Str × Val)}
+    (h1 : t.at? p1 = some (.node ty1 true r1 ln1 fs1)) (h2 : t.at? p2 = some (.node ty2 true r2 ln2 fs2)) :
+    hashFn t r1 = hashFn t r2 ↔ sameUpToCtx (.node ty1 true r1 ln1 fs1) (.node ty2 true r2 ln2 fs2) = true := by
+  obtain ⟨ns1, hn1⟩ := at_exists h1
+  obtain ⟨ns2, hn2⟩ := at_exists h2
+  constructor
+  · intro h
+    exact sameUpToCtx_of_sameExpr (conforms_of_at hn1 hs) (conforms_of_at hn2 hs)
+      ((C15_hash_iff t hw hd p1 p2 h1 h2).mp h)
+  · exact C15_hash_structural t hd p1 p2 h1 h2
+
+/-- Non-vacuity of `conforms`: a tuple of two slices `x[:2]` (lower absent) and `x[1:]` (upper absent), all three
+fields present in each `Slice` node as in a real tree; the schema is the one read off the tree. The two slices are
+not `sameUpToCtx`; `Foo(a=None, b=1)` next to `Foo(b=1)` does not conform to any schema. -/
+example :
+    let mk (ty : Str) (fs : List (Str × Val)) : Val := .node ty true (dumpNoCtx (.node ty true [] none fs)) none fs
+    let none : Val := .scalar cs!"None" .nameConst
+    let k (r : Str) : Val := mk cs!"Constant" [(cs!"value", .scalar r .num), (cs!"kind", none)]
+    let a := mk cs!"Slice" [(cs!"lower", none), (cs!"upper", k cs!"2"), (cs!"step", none)]
+    let b := mk cs!"Slice" [(cs!"lower", k cs!"1"), (cs!"upper", none), (cs!"step", none)]
+    let t := mk cs!"Tuple" [(cs!"elts", .list false [a, b]), (cs!"ctx", .node cs!"Load" false [] Option.none [])]
+    let bad : Val := .list false [.node cs!"Foo" true [] Option.none [(cs!"a", none), (cs!"b", .scalar cs!"1" .num)],
+      .node cs!"Foo" true [] Option.none [(cs!"b", .scalar cs!"1" .num)]]
+    wfDump t = true ∧ reprsAreDumps t = true ∧ conforms (schemaOf t) t = true ∧
+      dumpNoCtx a = cs!"Slice(upper=Constant(value=2))" ∧ dumpNoCtx b = cs!"Slice(lower=Constant(value=1))" ∧
+      sameUpToCtx a b = false ∧ sameExpr a b = false ∧ hashFn t (dumpNoCtx a) ≠ hashFn t (dumpNoCtx b) ∧
+      conforms (schemaOf bad) bad = false := by decide
+
+/-- Non-vacuity, shared prefix: `f(x)` and `f(x, y)` in one tuple. The tree is well-formed, its hash sources are
+its dumps (`Call(func=Name(id='f'), args=[Name(id='x')], keywords=[])` is a proper prefix-sharing sibling of the
+other), the two calls are not the same expression and get different hashes; the two `x` get the same. -/
+example :
+    let mk (ty : Str) (fs : List (Str × Val)) : Val := .node ty true (dumpNoCtx (.node ty true [] none fs)) none fs
+    let nm (x c : Str) : Val := mk cs!"Name" [(cs!"id", .scalar x .str), (cs!"ctx", .node c false [] none [])]
+    let call (args : List Val) : Val :=
+      mk cs!"Call" [(cs!"func", nm cs!"'f'" cs!"Load"), (cs!"args", .list false args), (cs!"keywords", .list false [])]
+    let a := call [nm cs!"'x'" cs!"Load"]
+    let b := call [nm cs!"'x'" cs!"Load", nm cs!"'y'" cs!"Load"]
+    let t := mk cs!"Tuple" [(cs!"elts", .list false [a, b]), (cs!"ctx", .node cs!"Load" false [] none [])]
+    wfDump t = true ∧ reprsAreDumps t = true ∧ (t.at? [0, 1]).isSome = true ∧ (t.at? [0, 2]).isSome = true ∧
+      dumpNoCtx a = cs!"Call(func=Name(id='f'), args=[Name(id='x')], keywords=[])" ∧
+      dumpNoCtx b = cs!"Call(func=Name(id='f'), args=[Name(id='x'), Name(id='y')], keywords=[])" ∧
+      sameExpr a b = false ∧ hashFn t (dumpNoCtx a) ≠ hashFn t (dumpNoCtx b) ∧
+      sameExpr (nm cs!"'x'" cs!"Load") (nm cs!"'x'" cs!"Store") = true := by decide
+
+/-- Non-vacuity, a string that looks like a dump: the constant `"Name(id='x')"` (Python writes it with double
+quotes) and the node `Name(id='x')` in the same field of the same type are told apart — as are the constant
+`'a, b'` and two items `a`, `b`; all the trees are well-formed. -/
+example :
+    let k (v : Val) : Val := .node cs!"Constant" true [] none [(cs!"value", v)]
+    let s := k (.scalar cs!"\"Name(id='x')\"" .str)
+    let n := k (.node cs!"Name" true [] none [(cs!"id", .scalar cs!"'x'" .str)])
+    let l1 : Val := .list false [.scalar cs!"'a, b'" .str]
+    let l2 : Val := .list false [.scalar cs!"a" .num, .scalar cs!"b" .num]
+    wfDump s = true ∧ wfDump n = true ∧ wfDump l1 = true ∧ wfDump l2 = true ∧
+      dumpNoCtx s = cs!"Constant(value=\"Name(id='x')\")" ∧ dumpNoCtx n = cs!"Constant(value=Name(id='x'))" ∧
+      sameExpr s n = false ∧ sameExpr l1 l2 = false ∧ dumpNoCtx l1 ≠ dumpNoCtx l2 := by decide
+
+/-- Non-vacuity, the twins of round 9: the set `{e}` and the f-string `f"{e}"` have one unparsed text and are
+different expressions — different dumps, different hashes. Also: escaped quotes and backslashes inside literals
+(`'it\'s"'`, `'\\'`, `b'\'"'`), tokens (`-1`, `1e+22`, `infj`, `Ellipsis`) are well-formed; an unescaped inner
+quote, a dangling backslash, a token with a space or a parenthesis (`(1+2j)`) are not. -/
+example :
+    let mk (ty : Str) (fs : List (Str × Val)) : Val := .node ty true (dumpNoCtx (.node ty true [] none fs)) none fs
+    let e : Val := mk cs!"Name" [(cs!"id", .scalar cs!"'e'" .str), (cs!"ctx", .node cs!"Load" false [] none [])]
+    let a := mk cs!"Set" [(cs!"elts", .list false [e])]
+    let b := mk cs!"JoinedStr" [(cs!"values", .list false [mk cs!"FormattedValue"
+      [(cs!"value", e), (cs!"conversion", .scalar cs!"-1" .num), (cs!"format_spec", .scalar cs!"None" .nameConst)]])]
+    let t := mk cs!"Tuple" [(cs!"elts", .list false [a, b]), (cs!"ctx", .node cs!"Load" false [] none [])]
+    wfDump t = true ∧ reprsAreDumps t = true ∧ sameExpr a b = false ∧
+      dumpNoCtx b = cs!"JoinedStr(values=[FormattedValue(value=Name(id='e'), conversion=-1)])" ∧
+      hashFn t (dumpNoCtx a) ≠ hashFn t (dumpNoCtx b) ∧
+      wfScalar cs!"'it\\'s\"'" = true ∧ wfScalar cs!"'\\\\'" = true ∧ wfScalar cs!"b'\\'\"'" = true ∧
+      wfScalar cs!"-1" = true ∧ wfScalar cs!"1e+22" = true ∧ wfScalar cs!"infj" = true ∧
+      wfScalar cs!"Ellipsis" = true ∧
+      wfScalar cs!"'it's'" = false ∧ wfScalar cs!"'a\\'" = false ∧ wfScalar cs!"(1+2j)" = false ∧
+      wfScalar cs!"a b" = false ∧ wfScalar cs!"" = false := by decide
 
 /-- The numbers are 1, 2, 3, … in order of first occurrence: the first expression gets `0x0001`. -/
 example : hashFn (.node cs!"Name" true cs!"Name(id='a')" (some 1) []) cs!"Name(id='a')" = cs!"0x0001" := by
